@@ -189,14 +189,42 @@ def rule_dummy_path(repo, rule):
     fi = repo.fn("pysnark.runtime", "add_constraint")
     it = get_interp(repo)
     guarded_if = None
-    for n in fi.node.body:
+    top_body = list(fi.node.body)
+    # a leading shortcut for LINEAR constraints under a guard:
+    #     if guard is not None and (v is LinComb.ZERO or w is LinComb.ZERO): add_constraint_unsafe(guard, y, ZERO)  else: <the rest>
+    # One factor being the zero wire (object identity), the constraint reads 0 = y; guard*y = 0 enforces exactly that when the
+    # guard is 1 and nothing when it is 0 - the dummy wire of the general form eliminated.
+    for n in list(top_body):
+        if not (isinstance(n, ast.If) and isinstance(n.test, ast.BoolOp) and isinstance(n.test.op, ast.And) and len(n.test.values) == 2):
+            continue
+        g_, z_ = n.test.values
+        if norm(g_).replace(" ", "") not in ("notguardisNone", "guardisnotNone"):
+            g_, z_ = z_, g_
+        if norm(g_).replace(" ", "") not in ("notguardisNone", "guardisnotNone"):
+            continue
+        pv, pw, py = fi.params[:3]
+        zs = {norm(x_).replace(" ", "") for x_ in (z_.values if isinstance(z_, ast.BoolOp) and isinstance(z_.op, ast.Or) else [z_])}
+        if not zs or not zs <= {"%sisLinComb.ZERO" % pv, "%sisLinComb.ZERO" % pw}:
+            continue
+        em = [c for s_ in n.body for c in ast.walk(s_) if isinstance(c, ast.Call)]
+        shape = [tuple(norm(a) for a in c.args) for c in em if norm(c.func).endswith("add_constraint_unsafe")]
+        if len(n.body) == 1 and len(em) == 1 and shape and len(shape[0]) == 3 and set(shape[0][:2]) == {"guard", py} and shape[0][2] == "LinComb.ZERO":
+            rule.ok(fi.loc(n), fi.fq, "linear constraint under a guard: add_constraint_unsafe(%s)" % ", ".join(shape[0]),
+                    "a factor is the zero wire, so the constraint is 0 = y; guard*y = 0 enforces it exactly when the guard is 1")
+            k_ = top_body.index(n)
+            top_body[k_:k_ + 1] = list(n.orelse)
+        else:
+            rule.violation(fi.loc(n), fi.fq, norm(n.body)[:160], "shortcut for linear constraints under a guard does not emit exactly "
+                           "guard*y = 0", "add_constraint/linear")
+        break
+    for n in top_body:
         if isinstance(n, ast.If) and "guard" in norm(n.test) and "None" in norm(n.test):
             guarded_if = n
     value_split = None
     if guarded_if is None:
         # the split may be on the guard's VALUE (`is_guard()`): under a false guard the dummy arm is still taken, which is
         # what this property needs (that the emission then depends on a secret is C06/C09's concern)
-        for n in fi.node.body:
+        for n in top_body:
             if isinstance(n, ast.If) and norm(n.test) in ("not is_guard()", "is_guard()"):
                 guarded_if, value_split = n, norm(n.test)
     if guarded_if is None:
@@ -216,8 +244,8 @@ def rule_dummy_path(repo, rule):
         # guard clause: `if guard is None: <unguarded>; return` - the guarded arm is the rest of the function
         other = guarded_if.body if arm is guarded_if.orelse else guarded_if.orelse
         from ..flatten import _terminates
-        if other and _terminates(other) and guarded_if in fi.node.body:
-            arm = fi.node.body[fi.node.body.index(guarded_if) + 1:]
+        if other and _terminates(other) and guarded_if in top_body:
+            arm = top_body[top_body.index(guarded_if) + 1:]
     calls = [c for s in arm for c in ast.walk(s) if isinstance(c, ast.Call)]
     params = fi.params[:3]
     v, w, y = params
